@@ -4,7 +4,7 @@
 # 2. applies the patch to /repo, runs every check (evidence redirected to a scratch dir), reverts /repo
 set -u
 export GOFLAGS=-mod=mod GOPROXY=off GOSUMDB=off GOTOOLCHAIN=local; unset GOWORK
-SRC=$1; NAME=$2; MODE=${3:-validate}
+SRC=$(realpath $1); NAME=$2; MODE=${3:-validate}
 PKGDIR=$(python3 -c "import json,sys; print(json.load(open('$SRC/meta.json')).get('package_dir','.'))" 2>/dev/null || echo .)
 RES=/verif/seeded/$NAME
 mkdir -p $RES
